@@ -13,7 +13,7 @@ from . import crashmc as C
 from .core import Violation, Inconclusive
 
 SCENARIOS = dict(quick=['gauss', 'wrap_net'],
-                 thorough=['gauss', 'wrap_net', 'blob_two_obj', 'two', 'gauss_net', 'b7_update'])
+                 thorough=['gauss', 'wrap_net', 'blob_two_obj', 'two', 'net2_tanh', 'b7_update'])
 
 
 def _mk(d):
@@ -40,10 +40,11 @@ def _record_job(scn_dict, workdir):
         m.apply(ev)
         if C.is_mutation(ev):
             n_mut += 1
-    with open(os.path.join(ckdir, 'ck.h5'), 'rb') as f:
+    main = 'ck' + scn['ext']
+    with open(os.path.join(ckdir, main), 'rb') as f:
         real = f.read()
     img = m.image()
-    if img.get('ck.h5') != real:
+    if img.get(main) != real:
         raise Inconclusive('file-system model does not reproduce the final checkpoint of ' +
                            scn.name)
     leftovers = sorted(set(os.listdir(ckdir)) ^ set(img))
@@ -106,7 +107,7 @@ def _crash_shard(scn_dict, workdir, shard, n_shards, tier):
                                           '' if torn is None else ', torn after {} bytes'.format(torn),
                                           j, kind, msg),
                                       dict(kind='crash', scenario=dict(scn), where=where))
-        main = img.get('ck.h5')
+        main = img.get('ck' + scn['ext'])
         if main is None:
             stats['absent'] += 1
             if not absent_ok:
@@ -123,7 +124,7 @@ def _crash_shard(scn_dict, workdir, shard, n_shards, tier):
               'state nor the one being written')
             return
         stats['loadable'] += 1
-        others = tuple(sorted(n for n in img if n != 'ck.h5'))
+        others = tuple(sorted(n for n in img if n != 'ck' + scn['ext']))
         rkey = (dg, others) if tier == 'quick' else (dg, h)
         if rkey in resumed:
             return
@@ -207,7 +208,7 @@ def _completed_job(scn_dict, workdir, shard, n_shards):
                     continue
                 try:
                     with np.errstate(all='ignore'):
-                        s = scn.build(filepath=os.path.join(d, 'ck.h5'), resume=True)
+                        s = scn.build(filepath=os.path.join(d, 'ck' + scn['ext']), resume=True)
                         ok = s.run(**scn.run_args())
                         obs, summ = smc.observation(s)
                     from . import monitors as M
